@@ -11,7 +11,9 @@ LEAN_TARGETS = ["ZmqVerif.Props.C01"]
 RULE = (
     "corpus, then EXHAUSTIVE frame-length grids crossed for 1..3 frames (contents generated from (len,seed)), "
     "then seeded random messages (1..6 frames, log-uniform lengths), READY for 9 socket types x 6 identity "
-    "sizes, the greeting; a case is non-trivial when the implementation produced a wire of >= 2 bytes; "
+    "sizes, the greeting; SOCKET level (engine world): each of the 9 socket types x configured identities (none, 1, 17, 200, 255 bytes) "
+    "accepts a raw peer over a scripted pipe and the greeting + READY the real handshake wrote are parsed by a python "
+    "RFC-23 reference (Socket-Type = the type, Identity iff configured, nothing else); a case is non-trivial when the implementation produced a wire of >= 2 bytes; "
     "distinct = distinct op lists"
 )
 ASSUMPTIONS = [
@@ -69,7 +71,80 @@ def cases(tier, rng):
         for idlen in [None, 1, 200, 214, 215, 255]:
             tok = "none" if idlen is None else f"@{idlen}:{idlen}"
             out.append(Case(f"ready-{t}-{idlen}", "codec", [f"encready {t} {tok}"], ["ready"]))
+    out += socket_cases(tier)
     return out
+
+
+def socket_cases(tier):
+    """what a SOCKET puts on an attached connection during the handshake: every implemented socket type, with and
+    without a configured identity, accepting a compatible raw peer over a scripted pipe — the greeting and the READY
+    come out of the real `peer_connected`, not out of the codec hook"""
+    from vlib import worldgen as wg
+    from vlib import zmtp
+
+    out = []
+    idents = [None, b"I", b"ident-16-bytes-xx", bytes(range(1, 201)), b"\xfe" * 255]
+    if tier != "quick":
+        idents += [bytes([7]) * n for n in (2, 100, 213, 214, 215, 254)]
+    for t in TYPES9:
+        peer = wg.COMPAT[t][0]
+        for i, ident in enumerate(idents):
+            sc = wg.Script()
+            sc.sock(1, t, ident)
+            sc.attach(1, 1, peer, b"peer")
+            sc.add("wire 1")
+            c = sc.case(f"socket-ready-{t}#{i}", ["socket-ready"])
+            c.expect = (t, ident)
+            out.append(c)
+    return out
+
+
+def socket_oracle(case, lines):
+    from vlib import zmtp
+
+    if any(l.startswith(("PANIC", "ABORT", "TIMEOUT")) for l in lines):
+        return "implementation panicked/aborted"
+    t, ident = case.expect
+    wire = [l for op, l in zip(case.ops, lines[1:]) if op == "wire 1"]
+    if not wire or not wire[-1].startswith("wire ") or wire[-1] == "wire .":
+        return f"the socket wrote nothing on the connection: {wire}"
+    tok = wire[-1].split()[1]
+    if "#" in tok:
+        # a long wire is printed as prefix#length:hash — compare with the canonical text of the two legal byte strings
+        # (READY properties come out of a HashMap: either order), built by the python reference encoder
+        g = zmtp.greeting()
+        cands = [g + zmtp.command(b"READY", order) for order in
+                 ([(b"Socket-Type", t.encode()), (b"Identity", ident)], [(b"Identity", ident), (b"Socket-Type", t.encode())])]
+        if tok not in [gen.show_bytes(c) for c in cands]:
+            return (f"greeting + READY written by the {t} socket configured with a {len(ident)}-byte identity is not the RFC-23 "
+                    f"encoding of READY{{Socket-Type, Identity}}: {tok} (want {gen.show_bytes(cands[0])} or the other property order)")
+        return None
+    try:
+        data = bytes.fromhex(tok)
+    except ValueError:
+        return f"unreadable wire line {wire[-1][:80]}"
+    g = zmtp.parse_greeting(data[:64])
+    if isinstance(g, str):
+        return f"greeting written by the {t} socket is malformed: {g}"
+    if g[0] != 3 or g[1] != 0 or g[2] != b"NULL" or g[3] != 0:
+        return f"greeting written by the {t} socket is not version 3.0 / NULL / client: {g}"
+    try:
+        frames = zmtp.parse_frames(data[64:])
+        if len(frames) != 1 or not (frames[0][0] & 4) or (frames[0][0] & 1):
+            return f"after its greeting the {t} socket wrote {len(frames)} frames, flags {[f[0] for f in frames]} — want ONE command frame"
+        name, props = zmtp.parse_command(frames[0][1])
+    except ValueError as e:
+        return f"READY written by the {t} socket is not well-formed: {e}"
+    if name != b"READY":
+        return f"command {name!r} instead of READY"
+    want = {b"Socket-Type": t.encode()}
+    if ident is not None:
+        want[b"Identity"] = ident
+    if len(props) != len(set(k for k, _ in props)) or dict(props) != want:
+        return (f"READY of a {t} socket {'configured with identity ' + ident[:8].hex() + '…' if ident else 'without identity'} "
+                f"carries {[(k.decode('latin1'), v[:8].hex()) for k, v in props]} — want Socket-Type"
+                f"{' and Identity' if ident else ' only'}")
+    return None
 
 
 def nontrivial(case, impl_lines):
@@ -94,6 +169,8 @@ def oracle_batch(cases_, impls):
     """Spec on the implementation's bytes: the strict RFC-23 parser (Lean, `Spec.Rfc23`) applied to
     the REAL wire gives back exactly the frames that were sent; the library's own decode of its own
     bytes gives the identical message; greeting / READY are well-formed per the RFC grammar."""
+    if cases_ and cases_[0].engine == "world":
+        return [socket_oracle(c, il) for c, il in zip(cases_, impls)]
     verdicts = [None] * len(cases_)
     full_ops = []  # (case idx, op, kind)
     for ci, (case, impl_lines) in enumerate(zip(cases_, impls)):
